@@ -76,6 +76,32 @@ pub proof fn lemma_lc_followed_push(a: Seq<&SyntaxNode>, n: &SyntaxNode)
         else { assert(s[j] == a.last()); assert(s[j + 1] == n); }
     }
 }
+/// PF20: a field access is its target, then (behind comments / blanks only) the dot, then (comments, blanks and) the field name
+pub open spec fn is_trivia_kind(k: SyntaxKind) -> bool { k == SyntaxKind::Space || k == SyntaxKind::LineComment || k == SyntaxKind::BlockComment }
+pub open spec fn field_access_shape(ch: Seq<&SyntaxNode>, p: int) -> bool {
+    &&& 1 <= p < ch.len() && ch[p].kind_s() == SyntaxKind::Dot
+    &&& ast::expr_kind(ch[0].kind_s())
+    &&& forall|i: int| 1 <= i < p ==> is_trivia_kind((#[trigger] ch[i]).kind_s())
+    &&& forall|i: int| p < i < ch.len() ==> is_trivia_kind((#[trigger] ch[i]).kind_s()) || ch[i].kind_s() == SyntaxKind::Ident
+}
+#[verifier::external_body]
+pub proof fn pf_field_access_shape(n: &SyntaxNode)
+    requires tree_wf(n), n.kind_s() == SyntaxKind::FieldAccess,
+    ensures exists|p: int| field_access_shape(n.children_s(), p),
+{}
+/// PF21: a binary expression whose operator is not `not in` is its left operand, then (behind comments / blanks only) the operator
+/// token, then (comments, blanks and) the right operand
+pub open spec fn binary_shape(ch: Seq<&SyntaxNode>, p: int) -> bool {
+    &&& 1 <= p < ch.len() && BinOp::from_kind_s(ch[p].kind_s()) is Some
+    &&& ast::expr_kind(ch[0].kind_s())
+    &&& forall|i: int| 1 <= i < p ==> is_trivia_kind((#[trigger] ch[i]).kind_s())
+    &&& forall|i: int| p < i < ch.len() ==> is_trivia_kind((#[trigger] ch[i]).kind_s()) || ast::expr_kind(ch[i].kind_s())
+}
+#[verifier::external_body]
+pub proof fn pf_binary_shape(n: &SyntaxNode)
+    requires tree_wf(n), n.kind_s() == SyntaxKind::Binary, ast::Binary(n).op_s() != BinOp::NotIn,
+    ensures exists|p: int| binary_shape(n.children_s(), p),
+{}
 /// PF2: leaf texts. A LineComment's text starts with `//` and contains no newline; no other leaf's text starts with `//`
 /// except inside Text/Raw/Str/Link tokens, which the printer emits verbatim; a BlockComment's text starts with `/*`.
 pub open spec fn lc_text(s: Seq<char>) -> bool { is_lc(s) && !has_newline_s(s) }
